@@ -1,6 +1,7 @@
 import MuduoVerif.Proofs.LogStream
 import MuduoVerif.Proofs.LogStreamTid
 import MuduoVerif.Proofs.LogStreamNum
+import MuduoVerif.Proofs.LogStreamSkelTie
 /-!
 # C17 — log text equals printf output, stays in bounds and carries true metadata
 
@@ -250,5 +251,54 @@ theorem formatIEC_width (n : Nat) (h : n < 2 ^ 63) : (formatIEC n).length ≤ 6 
     have := decimalNat_length_le 3 n (by omega)
     omega
   · exact iecGo_length_double iecTable iecTable_ok n (rnInt_le n _ (by omega) (rep_two_pow 63))
+
+/-! ## statement order -/
+
+/-- T1, statement order: in the functions of `LogStream.h` / `LogStream.cc` / `Logging.cc` the model implements
+(`FixedBuffer::append` / `add` / `reset`, every insertion operator, `LogStream::append`, `convert`, `convertHex`,
+`formatInteger`, `formatSI`, `formatIEC`, `Fmt`'s and `T`'s constructors, `Impl::formatTime`, `Impl::finish`,
+`~Logger`; `Impl::Impl` itself is `implSteps`) the source performs the same stores (of the same expressions), engine
+calls, libc calls, insertion chains (of the same pieces), assertions and returns, in the same order and under the same
+nesting of the generated guards, table rows and digit loops as `Model/LogStream.lean`
+(`Model/LogStreamSkelDecl.lean`); re-extracted from /repo on every run (`Generated/LogStreamSkel.lean`), proved in
+`Proofs/LogStreamSkelTie.lean` -/
+theorem statement_order_tied :
+    Gen.LogStreamSkel.bufAppend = LogStreamSkel.Decl.bufAppend ∧
+    Gen.LogStreamSkel.bufAdd = LogStreamSkel.Decl.bufAdd ∧
+    Gen.LogStreamSkel.bufReset = LogStreamSkel.Decl.bufReset ∧
+    Gen.LogStreamSkel.insBool = LogStreamSkel.Decl.insBool ∧
+    Gen.LogStreamSkel.insFloat = LogStreamSkel.Decl.insFloat ∧
+    Gen.LogStreamSkel.insChar = LogStreamSkel.Decl.insChar ∧
+    Gen.LogStreamSkel.insCStr = LogStreamSkel.Decl.insCStr ∧
+    Gen.LogStreamSkel.insUCStr = LogStreamSkel.Decl.insUCStr ∧
+    Gen.LogStreamSkel.insString = LogStreamSkel.Decl.insString ∧
+    Gen.LogStreamSkel.insPiece = LogStreamSkel.Decl.insPiece ∧
+    Gen.LogStreamSkel.insBuffer = LogStreamSkel.Decl.insBuffer ∧
+    Gen.LogStreamSkel.streamAppend = LogStreamSkel.Decl.streamAppend ∧
+    Gen.LogStreamSkel.resetBuffer = LogStreamSkel.Decl.resetBuffer ∧
+    Gen.LogStreamSkel.insFmt = LogStreamSkel.Decl.insFmt ∧
+    Gen.LogStreamSkel.convert = LogStreamSkel.Decl.convert ∧
+    Gen.LogStreamSkel.convertHex = LogStreamSkel.Decl.convertHex ∧
+    Gen.LogStreamSkel.formatSI = LogStreamSkel.Decl.formatSI ∧
+    Gen.LogStreamSkel.formatIEC = LogStreamSkel.Decl.formatIEC ∧
+    Gen.LogStreamSkel.formatInteger = LogStreamSkel.Decl.formatInteger ∧
+    Gen.LogStreamSkel.insShort = LogStreamSkel.Decl.insShort ∧
+    Gen.LogStreamSkel.insUShort = LogStreamSkel.Decl.insUShort ∧
+    Gen.LogStreamSkel.insInt = LogStreamSkel.Decl.insInteger ∧
+    Gen.LogStreamSkel.insUInt = LogStreamSkel.Decl.insInteger ∧
+    Gen.LogStreamSkel.insLong = LogStreamSkel.Decl.insInteger ∧
+    Gen.LogStreamSkel.insULong = LogStreamSkel.Decl.insInteger ∧
+    Gen.LogStreamSkel.insLongLong = LogStreamSkel.Decl.insInteger ∧
+    Gen.LogStreamSkel.insULongLong = LogStreamSkel.Decl.insInteger ∧
+    Gen.LogStreamSkel.insPointer = LogStreamSkel.Decl.insPointer ∧
+    Gen.LogStreamSkel.insDouble = LogStreamSkel.Decl.insDouble ∧
+    Gen.LogStreamSkel.fmtCtor = LogStreamSkel.Decl.fmtCtor ∧
+    Gen.LogStreamSkel.tCtor = LogStreamSkel.Decl.tCtor ∧
+    Gen.LogStreamSkel.insT = LogStreamSkel.Decl.insT ∧
+    Gen.LogStreamSkel.insSourceFile = LogStreamSkel.Decl.insSourceFile ∧
+    Gen.LogStreamSkel.formatTime = LogStreamSkel.Decl.formatTime ∧
+    Gen.LogStreamSkel.finish = LogStreamSkel.Decl.finish ∧
+    Gen.LogStreamSkel.loggerDtor = LogStreamSkel.Decl.loggerDtor :=
+  LogStreamSkel.skeletons_agree
 
 end MuduoVerif.C17
